@@ -128,6 +128,8 @@ class InterpBase:
         self.unroll_idx: List[int] = []
         self._site_ids: Dict[Tuple, int] = {}
         self.pairs_base: Dict[Any, Length] = {}
+        self.opaque_funcs: set = set()
+        self.list_version: Dict[str, int] = {}
         self.quiet = 0
         from .builtins import Builtins
 
